@@ -22,14 +22,14 @@ open Genq.Skel
 def wsSkeleton : List Fn := [
   { name := "webSocketClient.sendInit", body := [
       .eff "call w.sendStructAsJSON(connInitMsg)",
-      .ret "w.sendStructAsJSON(connInitMsg)" ] },
+      .ret "<call>" ] },
   { name := "webSocketClient.sendStructAsJSON", body := [
       .ite "err != nil"
         [
           .ret "err" ]
         [],
       .eff "call w.conn.WriteMessage(textMessage, jsonBytes)",
-      .ret "w.conn.WriteMessage(textMessage, jsonBytes)" ] },
+      .ret "<call>" ] },
   { name := "webSocketClient.waitForConnAck", body := [
       .loop "for !connAckReceived" [
         .eff "call w.receiveWebSocketConnAck()",
@@ -39,7 +39,7 @@ def wsSkeleton : List Fn := [
           [],
         .ite "time.Since(start) > websocketConnAckTimeOut"
           [
-            .ret "fmt.Errorf(\"timed out while waiting for connAck (> %v)\", websocketConnAckTimeOut)" ]
+            .ret "<call>" ]
           [] ],
       .ret "nil" ] },
   { name := "webSocketClient.handleErr", body := [
@@ -53,7 +53,7 @@ def wsSkeleton : List Fn := [
   { name := "webSocketClient.closing", body := [
       .eff "call w.Lock()",
       .eff "defer w.Unlock()",
-      .ret "w.isClosing" ] },
+      .ret "<expr>" ] },
   { name := "webSocketClient.listenWebSocket", body := [
       .eff "defer verifYield(\"listen.exit\")",
       .loop "for" [
@@ -82,7 +82,7 @@ def wsSkeleton : List Fn := [
       .eff "call w.subscriptions.Read(wsMsg.ID)",
       .ite "!ok"
         [
-          .ret "fmt.Errorf(\"received message for unknown subscription ID '%s'\", wsMsg.ID)" ]
+          .ret "<call>" ]
         [],
       .ite "sub.hasBeenUnsubscribed"
         [
@@ -91,17 +91,17 @@ def wsSkeleton : List Fn := [
       .ite "wsMsg.Type == webSocketTypeComplete"
         [
           .eff "call w.subscriptions.Unsubscribe(wsMsg.ID)",
-          .ret "w.subscriptions.Unsubscribe(wsMsg.ID)" ]
+          .ret "<call>" ]
         [],
       .eff "call sub.forwardDataFunc(sub.interfaceChan, wsMsg.Payload)",
-      .ret "sub.forwardDataFunc(sub.interfaceChan, wsMsg.Payload)" ] },
+      .ret "<call>" ] },
   { name := "webSocketClient.receiveWebSocketConnAck", body := [
       .eff "call w.conn.ReadMessage()",
       .ite "err != nil"
         [
           .ret "false, err" ]
         [],
-      .ret "checkConnectionAckReceived(message)" ] },
+      .ret "<call>" ] },
   { name := "webSocketClient.Start", body := [
       .eff "call w.Dialer.DialContext(ctx, w.endpoint, w.header)",
       .eff "set w.conn",
@@ -122,7 +122,7 @@ def wsSkeleton : List Fn := [
           .ret "nil, err" ]
         [],
       .eff "go w.listenWebSocket()",
-      .ret "w.errChan, err" ] },
+      .ret "<expr>, err" ] },
   { name := "webSocketClient.Close", body := [
       .ite "w.conn == nil"
         [
@@ -150,11 +150,11 @@ def wsSkeleton : List Fn := [
         [
           .ite "strings.HasPrefix(strings.TrimSpace(req.Query), \"query\")"
             [
-              .ret "\"\", fmt.Errorf(\"client does not support queries\")" ]
+              .ret "<expr>, <call>" ]
             [],
           .ite "strings.HasPrefix(strings.TrimSpace(req.Query), \"mutation\")"
             [
-              .ret "\"\", fmt.Errorf(\"client does not support mutations\")" ]
+              .ret "<expr>, <call>" ]
             [] ]
         [],
       .eff "call w.subscriptions.Create(subscriptionID, interfaceChan, forwardDataFunc)",
@@ -162,9 +162,9 @@ def wsSkeleton : List Fn := [
       .ite "err != nil"
         [
           .eff "call w.subscriptions.Delete(subscriptionID)",
-          .ret "\"\", err" ]
+          .ret "<expr>, err" ]
         [],
-      .ret "subscriptionID, nil" ] },
+      .ret "<expr>, nil" ] },
   { name := "webSocketClient.Unsubscribe", body := [
       .eff "call w.sendStructAsJSON(completeMsg)",
       .ite "err != nil"
@@ -195,13 +195,13 @@ def subMapSkeleton : List Fn := [
   { name := "subscriptionMap.Read", body := [
       .eff "call s.RLock()",
       .eff "defer s.RUnlock()",
-      .ret "sub, success" ] },
+      .ret "<expr>, <expr>" ] },
   { name := "subscriptionMap.Unsubscribe", body := [
       .eff "call s.Lock()",
       .eff "defer s.Unlock()",
       .ite "!success"
         [
-          .ret "fmt.Errorf(\"tried to unsubscribe from unknown subscription with ID '%s'\", subscriptionID)" ]
+          .ret "<call>" ]
         [],
       .ite "unsub.hasBeenUnsubscribed"
         [
@@ -219,7 +219,7 @@ def subMapSkeleton : List Fn := [
           [
             .eff "continue" ]
           [] ],
-      .ret "subscriptionIDs" ] },
+      .ret "<expr>" ] },
   { name := "subscriptionMap.Delete", body := [
       .eff "call s.Lock()",
       .eff "defer s.Unlock()",
